@@ -22,5 +22,9 @@ LEVEL_NOTE = ("trusted: Lean kernel + propext/Classical.choice/Quot.sound; the h
 TECHNIQUE = "Lean 4 proof (BitVec 64) + differential correspondence run against the real numeric package"
 
 # modules whose theorems are audited and counted as obligations (bridge Gen <-> reference, property theorems)
-AUDIT_MODULES = ["BlugeProofs.C10", "BlugeProofs.C10.Bridge"]
-LAKE_TARGETS = ["BlugeProofs.C10", "BlugeProofs.C10.Bridge", "drv_c10"]
+_MODS = ["BlugeProofs.C10", "BlugeProofs.C10.Bridge", "BlugeProofs.C10.BridgePC", "BlugeProofs.C10.Prefix", "BlugeProofs.C10.Order",
+         "BlugeProofs.C10.Split", "BlugeProofs.C10.Enumerate", "BlugeProofs.C10.Morton"]
+import os as _os
+_MODS = [m for m in _MODS if _os.path.exists(_os.path.join(_os.path.dirname(_os.path.dirname(_os.path.abspath(__file__))), "lean", *m.split(".")) + ".lean")]
+AUDIT_MODULES = _MODS
+LAKE_TARGETS = _MODS + ["drv_c10"]
